@@ -148,6 +148,10 @@ pub enum Arr {
     StructAlias,
     ListAlias,
     Merge,
+    /// map entry whose key is repeated in the document (surviving occurrence written out)
+    RepKeyDirect,
+    /// map entry whose key is repeated, surviving occurrence given by an alias
+    RepKeyAlias,
 }
 
 impl Arr {
@@ -158,6 +162,8 @@ impl Arr {
             Arr::StructAlias => "struct-alias",
             Arr::ListAlias => "list-alias",
             Arr::Merge => "merge",
+            Arr::RepKeyDirect => "repeated-key-direct",
+            Arr::RepKeyAlias => "repeated-key-alias",
         }
     }
     pub fn from_name(s: &str) -> Arr {
@@ -166,6 +172,8 @@ impl Arr {
             "struct-alias" => Arr::StructAlias,
             "list-alias" => Arr::ListAlias,
             "merge" => Arr::Merge,
+            "repeated-key-direct" => Arr::RepKeyDirect,
+            "repeated-key-alias" => Arr::RepKeyAlias,
             _ => Arr::Direct,
         }
     }
